@@ -1,4 +1,5 @@
 import LexgenModel.Proofs.Parser
+import LexgenModel.Proofs.ParserDef
 /-!
 # C16 — Definitions are read with the documented precedence and variable scoping
 -/
@@ -24,5 +25,18 @@ theorem C16_redundant_parentheses (r : Regex) (k : Nat) (ts : List Tok) (hk : k 
 theorem C16_var_is_its_definition (b : Bindings) (n : String) (r : Regex) (fuel : Nat) (h : b.find? n = some r) :
     inlineVars b (fuel + 1) (.var n) = inlineVars b fuel r := by
   simp [inlineVars, h]
+
+/-- Whole definitions (header, `let` bindings, rules of all four kinds with optional right contexts, rule
+sets, `type Error`): printing a definition and parsing the tokens with the model of `make_lexer_parser` /
+`parse_rule` / `parse_rule_or_binding` gives the definition back — items, scopes (which `let`s and rules
+sit in which rule set), every rule's kind and its index in the semantic-action table. -/
+theorem C16_definition_round_trip (d : ParsedDef) (h : WFDef d) : parseDef (printDef d) = .ok d :=
+  parseDef_printDef d h
+
+/-- On ANY token list the parser numbers the rules `0, 1, 2, …` in source order (across rule sets), one
+action-table entry per rule. -/
+theorem C16_rules_numbered_in_source_order {ts : List DTok} {d : ParsedDef} (h : parseDef ts = .ok d) :
+    itemIndices d.items = List.range d.table.length ∧ errorTypeCount d.items = d.errorTypes.length :=
+  parseDef_indices h
 
 end Lexgen
